@@ -153,10 +153,17 @@ def framing_body(ctx, case):
 NAME1 = st.sampled_from(list("QVRSAXT"))
 NAME2 = st.one_of(st.sampled_from(["QL", "QS", "SM", "EM", "SP", "T3", "L3", "QG", "RB", "BL", "ST", "XM", "HM"]),
                   st.tuples(st.sampled_from(LETTERS), st.sampled_from(LETTERS + "0123456789")).map("".join))
-ARGTEXT = st.text(alphabet="0123456789,-ABab. ", min_size=1, max_size=12).map(
-    lambda s: s.strip(" ,") or "0")
+# argument text is free text for some commands (ST,<nickname>): characters that mean something to string formatting,
+# regular expressions or shells must travel through unharmed
+ARGTEXT = st.one_of(
+    st.text(alphabet="0123456789,-ABab. ", min_size=1, max_size=12),
+    st.text(alphabet="0123456789,-ABab. %{}$\\()[]*?+|^&#@!~'\"", min_size=1, max_size=12),
+    st.sampled_from(["100%", "50% ink", "%s", "%d", "%(x)s", "{0}", "{}", "a%", "%%", "$HOME", "\\n", "a{b", "x}"]),
+).map(lambda s: s.strip(" ,") or "0")
 WS = st.sampled_from(["", "", " ", "  ", "\t", "\r", "\r\n", " \r"])
-DATA = st.text(alphabet="0123456789,ABCDEFabcxyz-_.:", min_size=0, max_size=14).map(lambda s: s.strip())
+DATA = st.one_of(st.text(alphabet="0123456789,ABCDEFabcxyz-_.:", min_size=0, max_size=14),
+                st.text(alphabet="0123456789,ABab%{}$()[]*+", min_size=0, max_size=10),
+                st.sampled_from(["100%", "%s", "{0}", "%d,%d"])).map(lambda s: s.strip())
 
 
 @st.composite
@@ -189,7 +196,7 @@ def framing_cases(draw):
 
 
 def framing_grid():
-    shapes = ["V", "Q,5", "QL", "QL,3", "T3,1,0", " QS ", "SM,10,0,0\r"]
+    shapes = ["V", "Q,5", "QL", "QL,3", "T3,1,0", " QS ", "SM,10,0,0\r", "ST,100% ink", "ST,%s{0}"]
     kinds = ["echo", "data", "nocomma", "errline", "nameerr", "wrongname", "silent"]
     for method, req, kind, e in itertools.product(["command", "query"], shapes, kinds, range(0, 28)):
         data = "ZZ,37" if kind == "wrongname" else "12,ab"
@@ -383,7 +390,7 @@ def attribution_cases(draw):
 
 def run(ctx):
     ctx.exhaustive("framing-grid", framing_grid(), framing_body,
-                   "2 methods x 7 request shapes x 7 reply kinds x 0..27 empties + exception placements")
+                   "2 methods x 9 request shapes x 7 reply kinds x 0..27 empties + exception placements")
     ctx.exhaustive("method-fault-grid", method_fault_grid(), method_fault_body,
                    "32 request methods (fixed sample arguments) x every I/O operation x every fault kind")
     ctx.given("framing", framing_cases(), framing_body, quick=4000, thorough=400000)
